@@ -184,3 +184,39 @@ Definition cycle_reported (g : graph) (s : state) : bool :=
 (* round-robin driver used by the correspondence: rounds * nfiles scheduler choices *)
 Definition round_robin (g : graph) (rounds : nat) : list nat :=
   concat (repeat (seq 0 (nfiles g)) rounds).
+
+(* ---- correspondence: observations of the real compiler on a generated graph ---- *)
+Fixpoint rr_run (g : graph) (rounds : nat) (s : state) : state :=
+  match rounds with
+  | O => s
+  | S r => if final g s then s else rr_run g r (run g (seq 0 (nfiles g)) s)
+  end.
+
+Record gcase := {
+  c_n : nat;
+  c_imports : list (list nat);
+  c_rres : list nat;             (* 0 = resolves, 1 = resolver error / missing, 2 = resolver panics *)
+  c_lres : list bool;
+  c_req : list nat;
+  c_par : nat;
+  c_ok : bool;                   (* observed: Compile returned no error *)
+  c_cycle : option bool          (* observed: the error is an import-cycle report; None = not compared *)
+}.
+
+Definition graph_of (c : gcase) : graph :=
+  {| nfiles := c_n c;
+     imports := fun f => nth f (c_imports c) [];
+     rres := fun f => match nth f (c_rres c) 0 with 0 => ROk | 1 => RErr | _ => RPanic end;
+     lres := fun f => nth f (c_lres c) true |}.
+
+Definition gcase_wf (c : gcase) : bool :=
+  Nat.leb (length (c_imports c)) (c_n c) &&
+  forallb (fun l => forallb (fun d => Nat.ltb d (c_n c)) l) (c_imports c) &&
+  forallb (fun r => Nat.ltb r (c_n c)) (c_req c) && Nat.leb 1 (c_par c).
+
+Definition exec_chk (c : gcase) : bool :=
+  let g := graph_of c in
+  let n := c_n c in
+  let s := rr_run g (n * (4 * n + 10 + (n + 2) * n) + 1) (init (c_par c) (c_req c)) in
+  gcase_wf c && final g s && Bool.eqb (verdict s (c_req c)) (c_ok c) &&
+  match c_cycle c with None => true | Some b => Bool.eqb (cycle_reported g s) b end.
